@@ -88,8 +88,12 @@ FRESH_FUNCS = {'empty', 'zeros', 'ones', 'full', 'empty_like', 'zeros_like', 'on
 class OrderAnalysis:
     """typing of one function; `summaries` maps callee qualified names to their return type"""
 
-    def __init__(self, prog, fi, summaries: Dict[str, Optional[T]], resolve):
+    def __init__(self, prog, fi, summaries: Dict[str, Optional[T]], resolve, seed: Optional[Dict[str, T]] = None):
         self.prog, self.fi, self.summ, self.resolve = prog, fi, summaries, resolve
+        self.seed = dict(seed or {})
+        self.perm_gathers: List[Tuple[Word, ast.AST]] = []
+        self._seen_g = set()
+        self._seen_f = set()
         self.findings: List[Tuple[str, ast.AST, str, str]] = []   # (rule, node, construct, detail)
         self.checked: List[Tuple[str, ast.AST, str]] = []          # discharged obligations
         self.ret_types: List[Optional[T]] = []
@@ -139,6 +143,8 @@ class OrderAnalysis:
             return None
         if nm in FRESH_FUNCS:
             return T('Fresh')
+        if nm == 'arange' and len(c.args) == 1:
+            return T('Perm', SORTED)       # the identity permutation
         if nm in ('array', 'asarray', 'copy', 'list', 'tuple') and (c.args or isinstance(c.func, ast.Attribute)):
             x = c.args[0] if c.args else c.func.value
             t = self.ty(x, env)
@@ -156,6 +162,16 @@ class OrderAnalysis:
         idx = e.slice
         first = idx.elts[0] if isinstance(idx, ast.Tuple) and idx.elts else idx
         b = self.ty(first, env)
+        if isinstance(idx, ast.Tuple):
+            for it in idx.elts:
+                ti = self.ty(it, env) if isinstance(it, ast.Name) else None
+                if ti is not None and ti.kind == 'Perm' and isinstance(e.ctx, ast.Load) and id(e) not in self._seen_g:
+                    self._seen_g.add(id(e))
+                    self.perm_gathers.append((ti.o, e))
+        elif b is not None and b.kind == 'Perm' and isinstance(e.ctx, ast.Load) and (a is None or a.kind != 'Perm') \
+                and id(e) not in self._seen_g:
+            self._seen_g.add(id(e))
+            self.perm_gathers.append((b.o, e))
         if a is None:
             return None
         if a.kind == 'Tuple' and isinstance(idx, ast.Constant) and isinstance(idx.value, int) and idx.value < len(a.comps):
@@ -173,6 +189,9 @@ class OrderAnalysis:
             return T('Perm', wmul(a.o, b.o))
         if a.kind in ('Uniq', 'Rows') and b.kind == 'Inv':
             con = f'`{ast.unparse(e)[:70]}`: per-group array and group index refer to the same order'
+            if id(e) in self._seen_f:
+                return None
+            self._seen_f.add(id(e))
             if a.o == b.o:
                 self.checked.append(('INDEX', e, con))
             else:
@@ -184,7 +203,7 @@ class OrderAnalysis:
 
     # -------------------------------------------------------------- statements
     def run(self):
-        env: Dict[str, T] = {}
+        env: Dict[str, T] = dict(self.seed)
         self.block(self.fi.node.body, env)
         self.final_env = env
         return self
@@ -207,6 +226,12 @@ class OrderAnalysis:
             self.stmt(s, env)
 
     def stmt(self, s, env):
+        if isinstance(s, (ast.Assign, ast.AugAssign, ast.Expr, ast.Return)) and getattr(s, 'value', None) is not None:
+            # visit nested subscripts (call arguments, displays) for INDEX obligations and permutation gathers
+            top = s.value
+            for n in ast.walk(top):
+                if isinstance(n, ast.Subscript) and n is not top:
+                    self.ty_sub(n, env)
         if isinstance(s, ast.Assign):
             t = self.ty(s.value, env)
             for tgt in s.targets:
@@ -318,6 +343,21 @@ class OrderAnalysis:
                     tb = env.get(t0.value.id)
                     if tb is not None and tb.kind == 'Fresh' and (is_i(first) or (last is not None and is_i(last))):
                         fills.append((t0.value.id, n))
+        # the counter of `enumerate(<distinct values>)` numbers the GROUPS: used as a position in the raw (per-item) descriptor it
+        # picks the i-th item, which belongs to the i-th group only if every group has one item and the items are in group order
+        if isinstance(lp.iter, ast.Call) and _leaf(lp.iter.func) == 'enumerate' and lp.iter.args:
+            te = self.ty(lp.iter.args[0], env)
+            if te is not None and te.kind == 'Uniq':
+                for n in ast.walk(lp):
+                    if isinstance(n, ast.Subscript) and isinstance(n.ctx, ast.Load) and is_i(n.slice) and self.ty(n.value, env) is None:
+                        base = n.value
+                        raw = isinstance(base, ast.Subscript) and isinstance(base.value, ast.Attribute) and base.value.attr.endswith('descriptors')
+                        if raw and id(n) not in self._seen_f:
+                            self._seen_f.add(id(n))
+                            self.findings.append(('RAWIDX', n, 'the group counter is not used as a position in the per-item descriptor',
+                                                  f'`{ast.unparse(n)[:60]}` indexes the raw descriptor with the counter of '
+                                                  f'`{ast.unparse(lp.iter)[:50]}` (a number of a distinct value in {wname(te.o)}): the item at '
+                                                  f'that position belongs to another group unless the descriptor is already ordered that way'))
         orders = {o for o, _, _ in uses}
         if len(uses) >= 2:
             con = 'all per-group uses of the loop index refer to one group order'
